@@ -45,4 +45,45 @@ theorem roundtrip_keeps_counters (h : Hub) (c : String) (hc : c ∈ h.chains) :
   rw [C15.chain_exportImport h c hc]
   exact ⟨rfl, rfl, rfl⟩
 
+/-! ### A hand-written genesis that carries outgoing transactions
+
+`InitGenesis` first sets the chain's sequence counter to the exported value and then stores every
+listed outgoing transaction with `SetOutgoingTx`, which stamps it with the next sequence number.
+(`ExportGenesis` never writes that section, so the correspondence runs import it empty; the order of
+the two steps is pinned by `fact_genesis_import_order`.) -/
+
+/-- `SetOutgoingTx` over the imported list, starting from counter `s`: the stamps and the final counter. -/
+def importStamps : Nat → List α → List (α × Nat) × Nat
+  | s, [] => ([], s)
+  | s, x :: xs => let r := importStamps (s + 1) xs; ((x, s + 1) :: r.1, r.2)
+
+theorem importStamps_spec (s : Nat) (xs : List α) :
+    (importStamps s xs).2 = s + xs.length ∧
+    ((importStamps s xs).1.map (·.2)) = (List.range' (s + 1) xs.length) := by
+  induction xs generalizing s with
+  | nil => simp [importStamps]
+  | cons x xs ih =>
+    obtain ⟨h1, h2⟩ := ih (s + 1)
+    simp only [importStamps, List.length_cons, List.map_cons, h1, h2]
+    refine ⟨by omega, ?_⟩
+    rw [List.range'_succ]
+
+/-- The imported transactions get the consecutive numbers `s+1 … s+n`: pairwise distinct, all above the
+    imported counter, and the counter ends on the last of them — the next batch or signer set gets a
+    number none of them carries. -/
+theorem import_stamps_fresh (s : Nat) (xs : List α) :
+    ((importStamps s xs).1.map (·.2)).Nodup ∧
+    (∀ n ∈ (importStamps s xs).1.map (·.2), s < n ∧ n ≤ (importStamps s xs).2) ∧
+    (importStamps s xs).2 + 1 ∉ (importStamps s xs).1.map (·.2) := by
+  obtain ⟨h1, h2⟩ := importStamps_spec s xs
+  rw [h1, h2]
+  refine ⟨List.nodup_range', fun n hn => ?_, fun hn => ?_⟩
+  · have := List.mem_range'_1.mp hn; omega
+  · have := List.mem_range'_1.mp hn; omega
+
+example : importStamps 7 ["a", "b", "c"] = ([("a", 8), ("b", 9), ("c", 10)], 10) := by decide
+
+theorem fact_genesis_import_order : Generated.genesis_import_order =
+    "k.setParams | k.SetTokenInfos | k.setOutgoingSequence | k.setUnbatchedSendToExternal | k.setExternalEventVoteRecord | k.setLastObservedEventNonce | k.setLastEventNonceByValidator | k.SetOrchestratorValidatorAddress | k.setValidatorExternalAddress | k.setExternalOrchestratorAddress | k.SetOutgoingTx | k.SetExternalSignature | k.setLastEventNonceByValidator | k.setLastObservedSignerSetTx | k.setLastOutgoingBatchNonce | k.SetLastObservedExternalBlockHeight" := rfl
+
 end Mhub2.C10S
